@@ -341,6 +341,12 @@ with tempfile.TemporaryDirectory() as d, warnings.catch_warnings():
     warnings.simplefilter('ignore')
     fn = os.path.join(d, 'f.asdf'); asdf.AsdfFile({{'data': data, 'header': hdr}}).write_to(fn)
     err = tab = None
+    # history: the property holds for every call whatever was read before in the same process (the engine's worker runs the
+    # work items' calls one after another in one process, so module-level state left by one call is seen by the next);
+    # a prelude of well-formed earlier requests reconstructs that history here
+    for pk in (dict(load_pos=False), dict(load_vel=False), dict(load_pos=True, load_vel=True), dict(load=('pos',)), dict(load=('pid',)), dict()):
+        try: ra.read_asdf(fn, colname=case['colname'], dtype=fd, verbose=False, **pk)
+        except Exception: pass
     try:
         tab = ra.read_asdf(fn, load=None if case['load'] is None else tuple(case['load']), colname=case['colname'], dtype=fd, verbose=False, **kw)
     except Exception as ex:
